@@ -205,12 +205,12 @@ func (ss *sockServer) mark(path string) {
 		ch = make(chan struct{})
 		ss.seenCh[path] = ch
 	}
-	ss.mu.Unlock()
 	select {
 	case <-ch:
 	default:
-		close(ch)
+		close(ch) // under the mutex: two handlers may mark the same path at the same time
 	}
+	ss.mu.Unlock()
 }
 
 func (ss *sockServer) wait(path string) bool {
